@@ -120,6 +120,15 @@ public:
         auto in_fun = [&](auto i) { return first[i]; };
         auto out_fun = [&](auto cs) { segments.emplace_back(cs); };
         auto last_n = internal::make_segmentation_par(n, Epsilon, in_fun, out_fun);
+        // A closing point equal to the sentinel that opened its own segment is dropped: no key follows the last one,
+        // and the next level could not represent its successor
+        auto drop_sentinel_segment = [&] {
+            if (last_n > 1 && segments.back().get_first_x() == sentinel) {
+                segments.pop_back();
+                --last_n;
+            }
+        };
+        drop_sentinel_segment();
         levels_offsets.push_back(levels_offsets.back() + last_n);
 
         // Build upper levels
@@ -127,6 +136,7 @@ public:
             auto offset = levels_offsets[levels_offsets.size() - 2];
             auto in_fun_rec = [&](auto i) { return segments[offset + i].get_first_x(); };
             last_n = internal::make_segmentation(last_n, EpsilonRecursive, in_fun_rec, out_fun);
+            drop_sentinel_segment();
             levels_offsets.push_back(levels_offsets.back() + last_n);
         }
 
